@@ -87,18 +87,6 @@ func InsertComment(file *ast.File, text string, pos token.Pos) {
 			file.Comments[i] = e
 			return
 		}
-		if cg.Pos() <= pos && pos < cg.End() {
-			for j := range cg.List {
-				if pos < cg.Pos() {
-					cg.List = append(cg.List, comment)
-					copy(cg.List[j+1:], cg.List[i:])
-					cg.List[j] = comment
-					return
-				}
-			}
-			cg.List = append(cg.List, comment)
-			return
-		}
 	}
 	file.Comments = append(file.Comments, &ast.CommentGroup{List: []*ast.Comment{comment}})
 }
